@@ -64,12 +64,12 @@ def EProf.view (p : EProf K) : View K :=
 def EProf.touch (p : EProf K) : EProf K := { p with cache := some p.view }
 
 /-- `estimate_values_below(point)`. -/
-def EProf.below (p : EProf K) (x : K) : Option K := countAt p.view.bins p.view.min p.view.max x
+def EProf.below (p : EProf K) (x : K) : Option K := estimateBelow p.view.bins p.view.min p.view.max x
 
 /-- `estimate_values_above(point)`: the generated expression over `count`, `missing`, the kept
 histogram's own total and `count_at(point)`. -/
 def EProf.above (p : EProf K) (x : K) : Option K :=
-  (p.below x).map (fun c => Gen.DistogramExpr.estimateAbove p.count p.missing (sumCounts p.view.bins) c)
+  estimateAbove p.count p.missing p.view.bins p.view.min p.view.max x
 
 /-- The `histogram` of a sum (profiler.py `__add__`): both present — the longer one receives the
 other one's bins through `merge`; only the right one present — it is taken over; else the copy's. -/
